@@ -224,8 +224,7 @@ func (st *state) op(r *sim.Rand) {
 			grid = false
 			simrt.Count(cJunkArgs)
 		case 1:
-			f = 0
-			grid = false
+			f = 0 // an unused (disabled) channel slot: legitimate
 			simrt.Count(cZeroFreq)
 		case 2:
 			if len(st.std) > 0 {
